@@ -1352,8 +1352,9 @@ class BaseGaussianState(BaseState):
         mu, cov = self.reduced_gaussian(modes)  # pylint: disable=unused-variable
 
         # the reduction of a pure entangled state is mixed: decide purity on the reduced state
+        # (on the hbar-normalised covariance, like ``is_pure``: the decision must not depend on hbar)
         reduced_pure = self.is_pure and (
-            np.abs(np.linalg.det(cov) - (self._hbar / 2) ** (2 * len(modes))) < self.EQ_TOLERANCE
+            np.abs(np.linalg.det(cov / (self._hbar / 2)) - 1.0) < self.EQ_TOLERANCE
         )
 
         if reduced_pure:
